@@ -12,11 +12,13 @@ import MysyncProofs.Lemmas.GtidLemmas
 namespace SwitchoverLemmas
 open NS Gtid Select Switchover
 
+/-- a guard, the steps taken when it holds, the steps taken (before stopping) when it does not -/
 structure Stage where
   ok : Bool
   good : List Step
   bad : List Step := []
 
+/-- execute stages in order; stop after the first failed guard -/
 def run : List Stage → List Step
   | [] => []
   | s :: r => if s.ok then s.good ++ run r else s.bad
@@ -24,14 +26,17 @@ def run : List Stage → List Step
 @[simp] theorem run_nil : run [] = [] := rfl
 theorem run_cons (s : Stage) (r : List Stage) : run (s :: r) = if s.ok then s.good ++ run r else s.bad := rfl
 
+/-- the old master gets the recovery mark unless it is a confirmed clean replica -/
 def needRecovery (i : In) (mr : Pos) : Bool :=
   match i.oldStatus with
   | .err | .notReplica => true
   | .replica st ex => isSlavePermanentlyLost st ex mr.gtid
 
+/-- hosts re-pointed to the new master in phase 5 -/
 def targets (i : In) (nm : Pos) : List String :=
   (workList i).filter fun h => h != nm.host && (pingOk i.cs2 h == some true)
 
+/-- `promotePart` up to and including `STOP SLAVE` on the new master (phases 4, 5 and the recovery mark) -/
 def pHead (i : In) (nm mr : Pos) : List Stage :=
   [ { ok := true, good := [.chosen nm.host mr.host] },
     { ok := !(nm.host != mr.host && !i.mostRecentOnlineOk),
@@ -62,6 +67,7 @@ def pWritable (i : In) (nm : Pos) : Stage :=
 def pEvents (i : In) (nm : Pos) : Stage :=
   { ok := i.eventsOk, good := [.reenableEvents true, .setMasterKey nm.host i.masterKeyOk], bad := [.reenableEvents false] }
 
+/-- all stages of `promotePart` -/
 def pStages (i : In) (nm mr : Pos) : List Stage := pHead i nm mr ++ [pReset i nm, pWritable i nm, pEvents i nm]
 
 
@@ -75,6 +81,7 @@ theorem run_append (a b : List Stage) :
     · by_cases hr : (r.all fun x => x.ok) = true <;> simp [hs, hr]
     · simp [hs]
 
+/-- the first three stages of `pHead` (the `(s1, go)` pair of the model) -/
 def p4 (i : In) (nm mr : Pos) : List Stage :=
   [ { ok := true, good := [.chosen nm.host mr.host] },
     { ok := !(nm.host != mr.host && !i.mostRecentOnlineOk),
@@ -204,6 +211,7 @@ def sPick (cfg : Cfg) (i : In) : Stage :=
 
 def sPre (cfg : Cfg) (i : In) : List Stage := sPreA cfg i ++ [sOnly i, sNode i, sPick cfg i]
 
+/-- all stages of `performSwitchover` -/
 def stages (cfg : Cfg) (i : In) : List Stage := sPre cfg i ++ pStages i (nmOf cfg i) (mrOf i)
 
 theorem performSwitchover_eq (cfg : Cfg) (i : In) : performSwitchover cfg i = run (stages cfg i) := by
